@@ -302,8 +302,9 @@ def check(pid, tier, seed):
         # 8. evidence
         trusted = ["Coq 8.16.1 kernel (coqc, vm_compute; no native_compute)",
                    "axioms: " + (", ".join(sorted({a for axs in (assum or {}).values() for a in axs})) or "none (closed under the global context)"),
-                   "table translator tools/vplib.py gen_tables + hooks verif::{operator_props,token_props,char_class}",
-                   "extraction ExtrOcamlBasic only; driver/driver.ml; harness canonical printer; std oracle (Rust 1.81 std)"]
+                   "table translator tools/vplib.py gen_tables + hooks verif::{operator_props,token_props,char_class,tokenize,partial_token_view}; wrapper translator tools/translate_interface.py",
+                   "extraction ExtrOcamlBasic only (no Extract Constant / Extract Inductive of our own); OCaml 4.13.1; driver/driver.ml; harness canonical printer (rustc 1.81.0); std oracle (Rust 1.81 std)",
+                   "tools/audit.py with the baselines tools/panic_sites.json and tools/arithmetic_sites.json (C01, C15); the Python verdict path of tools/vp.py, vplib.py, props.py"]
         cov = {"obligations": len(thms) + P.get("lemma_count", 0), "discharged": (len(thms) + P.get("lemma_count", 0)) if proof_ok else 0,
                "checker_cmd": "make -C coq Props/%s.vo (coqc 8.16.1) + Print Assumptions allowlist + Admitted/Axiom grep" % pid,
                "trusted_base": trusted,
@@ -400,6 +401,12 @@ def main():
             path = write_replay(pid, {"property": pid, "kind": "obligation-broken", "has_input": False,
                                       "why": "the check could not be completed on this tree: " + tb.strip().splitlines()[-1][:300], "traceback": tb[-4000:]})
             print("VIOLATION property=%s replay=%s no-failing-input-found" % (pid, path))
+            try:      # the evidence file of this run: nothing was covered
+                P = props.PROPS[pid]
+                L.write_evidence(pid, tier, seed, P.get("level", "proof"), {"obligations": 1, "proof_failed": True, "checker_crashed": tb.strip().splitlines()[-1][:300],
+                                                                            "cases": 0, "distinct_cases": 0, "nontrivial_cases": 0}, P.get("assumptions", []), 0.0, 1)
+            except Exception:
+                pass
             return 1
     if cmd == "replay":
         return props.replay(sys.argv[2])
